@@ -3,6 +3,7 @@ from __future__ import annotations
 
 import asyncio
 import itertools
+import json
 import logging
 
 from harness import vloop
@@ -26,7 +27,8 @@ RULE = ("request/reconnect histories (in-order streams through a lossy, duplicat
         "channel ids) replayed against the real UDPTunnel, DeviceManagement and UDPDeviceManagementConnection over a "
         "stubbed datagram endpoint, each created with route_back False and True, the next connection of the same object "
         "reached by server disconnect, user disconnect+connect or heartbeat failure; the cEMI octets of the requests are "
-        "a generator axis (id-tagged 5 octets, empty, one octet, junk, a valid L_Data frame, 250 octets, mixed per "
+        "a generator axis, and so is the timing of frames around a reconnect (same datagram batch as the ConnectResponse, "
+        "1-3 loop callbacks later, during the disconnect exchange); payloads: (id-tagged 5 octets, empty, one octet, junk, a valid L_Data frame, 250 octets, mixed per "
         "request) - passed up = the callback received exactly those octets; one history = one model line; non-trivial = distinct history with at least one "
         "delivered frame and one non-delivered request")
 TRUSTED = ["model XknxVerif.Model.SeqRecv is hand-written; tied by replaying generated histories on the real handlers",
@@ -35,7 +37,8 @@ CASE_TIMEOUT = 20.0
 
 # how the SAME object gets its next connection: server DisconnectRequest (+auto-reconnect), user disconnect()+connect(),
 # heartbeat failure; "+rb" = created with route_back=True (configuration axis added in round 2)
-IMPLS = {"tunnel": ["tunnel-srv", "tunnel-usr", "tunnel-srv+rb", "tunnel-usr+rb", "tunnel-hb", "tunnel-hb+rb"],
+# "tunnel-inv": the reconnect is the tunnel's own reaction to a frame with an invalid sequence number (2 s timer)
+IMPLS = {"tunnel": ["tunnel-srv", "tunnel-usr", "tunnel-srv+rb", "tunnel-usr+rb", "tunnel-hb", "tunnel-hb+rb", "tunnel-inv"],
          "mgmt": ["handler", "handler-new", "conn-srv", "conn-usr", "conn-srv+rb", "conn-usr+rb"]}
 
 
@@ -136,7 +139,7 @@ class Rec:
         return "+".join(sorted(toks)) if toks else "-"
 
 
-async def _run(loop, kind, impl, ch0, events, pl="id"):
+async def _run(loop, kind, impl, ch0, events, pl="id", timing=None):
     impl, _, rb = impl.partition("+")
     route_back = rb == "rb"
     rec = Rec()
@@ -148,10 +151,60 @@ async def _run(loop, kind, impl, ch0, events, pl="id"):
         gw = Gateway(t.transport, on_data=rec.frame)
         req_cls, ack_cls = TunnellingRequest, "TunnellingAck"
 
-        async def connect(ch, first):
+        async def connect(ch, first, pre=(), post=(), lag=0):
+            """`pre`: request events delivered during the disconnect exchange of this reconnect (old connection);
+            `post`: request events delivered in the same datagram batch as the ConnectResponse (lag 0) or `lag` loop
+            callbacks later. Returns the per-event outputs of pre, of the connect itself, and of post."""
             gw.next_channel = ch
+            res = {"pre": [], "c": None, "post": []}
+
+            def burst(evs, key):
+                for ev in evs:
+                    c_, seq, i = (int(x) for x in ev[1:].split(":"))
+                    inject(c_, seq, i)
+                    res[key].append(rec.take(ack_cls, seq))
+                    rec.now = None
+
+            def on_disc():
+                gw.on_disconnect_request = None
+                rec.cur = [o for o in rec.cur if o[0] != "x"]
+                burst(pre, "pre")
+
+            def after_resp(n=[lag]):
+                gw.after_connect_response = None
+                if n[0] > 0:
+                    n[0] -= 1
+                    loop.call_soon(after_resp)
+                    return
+                rec.cur = [o for o in rec.cur if o[0] != "x"]
+                res["c"] = rec.take(ack_cls, 0)
+                burst(post, "post")
+            if pre:
+                gw.on_disconnect_request = on_disc
+            if post:
+                gw.after_connect_response = after_resp
+            await _connect(ch, first)
+            await loop.settle()
+            if (pre and len(res["pre"]) != len(pre)) or (post and len(res["post"]) != len(post)):
+                raise RuntimeError("harness: timing hook did not fire")
+            if res["c"] is None:
+                res["c"] = rec.take(ack_cls, 0)
+            return res
+
+        async def _connect(ch, first):
             if first:
                 await t.connect()
+            elif impl == "tunnel-inv":   # an out-of-order frame (not part of the history: it must cause nothing) arms the 2 s timer
+                t.transport.inject(req_cls(communication_channel_id=t.communication_channel,
+                                           sequence_counter=(t._sequence.expected + 100) % 256, raw_cemi=b"\x29\x00"))
+                before = gw.connects
+                for _ in range(10):
+                    if gw.connects > before:
+                        break
+                    await asyncio.sleep(0.5)
+                await loop.settle()
+                if t._reconnect_task is not None:
+                    await t._reconnect_task
             elif impl == "tunnel-usr":
                 await t.disconnect()
                 await t.connect()
@@ -242,16 +295,46 @@ async def _run(loop, kind, impl, ch0, events, pl="id"):
     await connect(ch0, True)
     rec.take(ack_cls, 0)
     outs = []
-    for ev in events:
+    timing = timing if (timing and kind == "tunnel") else None
+    dx = timing.get("dx", 0) if timing else 0
+    if dx and impl not in ("tunnel-usr", "tunnel-hb", "tunnel-inv"):
+        dx = 0      # only these reconnects have a disconnect exchange with the old channel still up
+    n, held = 0, []
+    while n < len(events):
+        ev = events[n]
         if ev[0] == "c":
+            if timing:
+                post = []
+                while len(post) < timing.get("burst", 0) and n + 1 + len(post) < len(events) \
+                        and events[n + 1 + len(post)][0] == "r":
+                    post.append(events[n + 1 + len(post)])
+                res = await connect(int(ev[1:]), False, pre=held, post=post, lag=timing.get("lag", 0))
+                outs.extend(res["pre"])
+                outs.append(res["c"])
+                outs.extend(res["post"])
+                n += 1 + len(post)
+                held = []
+                continue
             await connect(int(ev[1:]), False)
             outs.append(rec.take(ack_cls, 0))
-        else:
-            ch, seq, i = (int(x) for x in ev[1:].split(":"))
-            inject(ch, seq, i)
-            await loop.settle()
-            outs.append(rec.take(ack_cls, seq))
-            rec.now = None
+            n += 1
+            continue
+        if dx:
+            # the last `dx` requests before a reconnect are held back and delivered during its disconnect exchange
+            j = n
+            while j < len(events) and events[j][0] == "r":
+                j += 1
+            if j < len(events) and j - n <= dx:
+                held = events[n:j]
+                n = j
+                continue
+        ch, seq, i = (int(x) for x in ev[1:].split(":"))
+        inject(ch, seq, i)
+        await loop.settle()
+        outs.append(rec.take(ack_cls, seq))
+        rec.now = None
+        n += 1
+    outs = [o for o in outs if o is not None]
     e = expected()
     await finish()
     return ",".join(outs) + f" e={e}"
@@ -260,7 +343,7 @@ async def _run(loop, kind, impl, ch0, events, pl="id"):
 def run_impl(case):
     _, _, kind, ch0, evs = case["op"].split(" ")
     impl = case.get("impl") or IMPLS[kind][0]
-    return vloop.run(_run, kind, impl, int(ch0), evs.split(","), case.get("pl", "id"))
+    return vloop.run(_run, kind, impl, int(ch0), evs.split(","), case.get("pl", "id"), case.get("timing"))
 
 
 # ---------------------------------------------------------------------------
@@ -308,7 +391,8 @@ def nontrivial(case, out):
 
 
 def finding_key(case, msg):
-    return case["op"] + "|" + case.get("impl", "") + ("|" + case["pl"] if case.get("pl", "id") != "id" else "")
+    return (case["op"] + "|" + case.get("impl", "") + ("|" + case["pl"] if case.get("pl", "id") != "id" else "")
+            + ("|" + json.dumps(case["timing"], sort_keys=True) if case.get("timing") else ""))
 
 
 def shrink(case, msg):
@@ -444,6 +528,24 @@ def generate(rng, tier):
                     h.rel(-1); h.rel(0); h.rel(0)
                     for pl in (PL_MODES if thorough or pre == 3 else ("id", "mix", "empty")):
                         yield case(kind, impl, h, 9, pl)
+    # (2c) round 4: timing of server frames around a reconnect of the same tunnel object: `burst` frames in the same
+    #      datagram batch as the ConnectResponse (lag 0) or 1..3 loop callbacks later; `dx` frames of the old connection
+    #      during the disconnect exchange (user / heartbeat / invalid-sequence reconnects)
+    for impl in IMPLS["tunnel"]:
+        for lag in (0, 1, 2, 3):
+            for burst in ((1, 2, 4) if thorough or lag < 2 else (2,)):
+                for dx in (0, 1, 2):
+                    if dx and impl.partition("+")[0] == "tunnel-srv":
+                        continue
+                    h = Hist(9)
+                    h.rel(0); h.rel(0); h.rel(-1); h.rel(0); h.rel(0)
+                    h.connect(10)
+                    h.rel(0); h.rel(0); h.rel(-1); h.rel(0); h.rel(5)
+                    h.connect(10)
+                    h.rel(-1); h.rel(0); h.rel(0)
+                    c = case("tunnel", impl, h, 9, ("id", "mix")[(lag + burst + dx) % 2])
+                    c["timing"] = {"burst": burst, "lag": lag, "dx": dx}
+                    yield c
     # (3) faulty-channel streams, long enough to wrap, with reconnects and foreign channels
     n = 3000 if thorough else 80
     for j in range(n):
